@@ -179,10 +179,10 @@ func c20GenCase(t *rapid.T) c20Case {
 	switch k := rapid.SampledFrom(c20Pct).Draw(t, "long"); {
 	case k < 8:
 		c.Filler = rapid.IntRange(498, 520).Draw(t, "filler")
-		c.Chain.Profile = "V1C1"
+		c.Chain.Profile, c.Chain.ValidatorsHistory = "V1C1", nil
 	case k < 10:
 		c.Filler = rapid.IntRange(1996, 2006).Draw(t, "filler")
-		c.Chain.Profile = "V1C1"
+		c.Chain.Profile, c.Chain.ValidatorsHistory = "V1C1", nil
 	}
 	bias := ck.BalancedBias(c.Chain.P2PSig)
 	bias.Storage = 8
@@ -274,30 +274,40 @@ func (p *c20Peer) take() [][]byte {
 	return o
 }
 
-func (p *c20Peer) ConnectionAddr() string                                { return p.addr.String() }
-func (p *c20Peer) PeerAddr() net.Addr                                    { return &p.addr }
-func (p *c20Peer) RemoteAddr() net.Addr                                  { return &p.addr }
-func (p *c20Peer) Version() *payload.Version                             { return p.ver }
-func (p *c20Peer) BroadcastPacket(_ context.Context, b []byte) error     { return p.packet(b) }
-func (p *c20Peer) BroadcastHPPacket(_ context.Context, b []byte) error   { return p.packet(b) }
-func (p *c20Peer) EnqueueP2PMessage(m *Message) error                    { return p.message(m) }
-func (p *c20Peer) EnqueueP2PPacket(b []byte) error                       { return p.packet(b) }
-func (p *c20Peer) EnqueueHPMessage(m *Message) error                     { return p.message(m) }
-func (p *c20Peer) EnqueueHPPacket(b []byte) error                        { return p.packet(b) }
-func (p *c20Peer) Handshaked() bool                                      { return true }
-func (p *c20Peer) IsFullNode() bool                                      { return true }
-func (p *c20Peer) SupportsCompression() bool                             { return true }
-func (p *c20Peer) SetPingTimer()                                         {}
-func (p *c20Peer) SendVersion() error                                    { return nil }
-func (p *c20Peer) SendVersionAck(*Message) error                         { return nil }
-func (p *c20Peer) StartProtocol()                                        {}
-func (p *c20Peer) HandleVersion(*payload.Version) error                  { return nil }
-func (p *c20Peer) HandleVersionAck() error                               { return nil }
-func (p *c20Peer) AddGetAddrSent()                                       {}
-func (p *c20Peer) CanProcessAddr() bool                                  { return false }
-func (p *c20Peer) LastBlockIndex() uint32                                { p.mu.Lock(); defer p.mu.Unlock(); return p.last }
-func (p *c20Peer) HandlePing(ping *payload.Ping) error                   { p.mu.Lock(); p.last = ping.LastBlockIndex; p.mu.Unlock(); return nil }
-func (p *c20Peer) HandlePong(pong *payload.Ping) error                   { p.mu.Lock(); p.last = pong.LastBlockIndex; p.mu.Unlock(); return nil }
+func (p *c20Peer) ConnectionAddr() string                              { return p.addr.String() }
+func (p *c20Peer) PeerAddr() net.Addr                                  { return &p.addr }
+func (p *c20Peer) RemoteAddr() net.Addr                                { return &p.addr }
+func (p *c20Peer) Version() *payload.Version                           { return p.ver }
+func (p *c20Peer) BroadcastPacket(_ context.Context, b []byte) error   { return p.packet(b) }
+func (p *c20Peer) BroadcastHPPacket(_ context.Context, b []byte) error { return p.packet(b) }
+func (p *c20Peer) EnqueueP2PMessage(m *Message) error                  { return p.message(m) }
+func (p *c20Peer) EnqueueP2PPacket(b []byte) error                     { return p.packet(b) }
+func (p *c20Peer) EnqueueHPMessage(m *Message) error                   { return p.message(m) }
+func (p *c20Peer) EnqueueHPPacket(b []byte) error                      { return p.packet(b) }
+func (p *c20Peer) Handshaked() bool                                    { return true }
+func (p *c20Peer) IsFullNode() bool                                    { return true }
+func (p *c20Peer) SupportsCompression() bool                           { return true }
+func (p *c20Peer) SetPingTimer()                                       {}
+func (p *c20Peer) SendVersion() error                                  { return nil }
+func (p *c20Peer) SendVersionAck(*Message) error                       { return nil }
+func (p *c20Peer) StartProtocol()                                      {}
+func (p *c20Peer) HandleVersion(*payload.Version) error                { return nil }
+func (p *c20Peer) HandleVersionAck() error                             { return nil }
+func (p *c20Peer) AddGetAddrSent()                                     {}
+func (p *c20Peer) CanProcessAddr() bool                                { return false }
+func (p *c20Peer) LastBlockIndex() uint32                              { p.mu.Lock(); defer p.mu.Unlock(); return p.last }
+func (p *c20Peer) HandlePing(ping *payload.Ping) error {
+	p.mu.Lock()
+	p.last = ping.LastBlockIndex
+	p.mu.Unlock()
+	return nil
+}
+func (p *c20Peer) HandlePong(pong *payload.Ping) error {
+	p.mu.Lock()
+	p.last = pong.LastBlockIndex
+	p.mu.Unlock()
+	return nil
+}
 func (p *c20Peer) Disconnect(err error) {
 	p.mu.Lock()
 	if p.gone == nil {
@@ -316,16 +326,16 @@ type c20World struct {
 	// built: number of generated blocks already built on the source
 	built int
 
-	n       *ck.Node // syncing node
-	srv     *Server
-	runWG   sync.WaitGroup
-	panics  chan string
-	applied []uint32 // block indices in the order the syncing chain reported them
-	appMu   sync.Mutex
-	subCh   chan *block.Block
+	n                    *ck.Node // syncing node
+	srv                  *Server
+	runWG                sync.WaitGroup
+	panics               chan string
+	applied              []uint32 // block indices in the order the syncing chain reported them
+	appMu                sync.Mutex
+	subCh                chan *block.Block
 	sessStart, sessPoint uint32 // height at the start of this run of the node; sync point if state sync was active in it
-	subDone chan struct{}
-	subQuit chan struct{}
+	subDone              chan struct{}
+	subQuit              chan struct{}
 
 	atSync *c20Peer // the source as seen by the syncing server
 	atSrc  *c20Peer // the syncing node as seen by the source server
@@ -335,13 +345,13 @@ type c20World struct {
 	reqQ  [][]byte // syncing -> source, not yet delivered
 	respQ [][]byte // source -> syncing, not yet delivered
 
-	fatal    c20Fatal
-	lastDrop string // why the honest peer was dropped last time
-	delivered, deliveredSync map[uint32]bool // indices of the blocks handed to the current syncing server instance (for bQueue / bSyncQueue)
-	forged map[util.Uint256]string // hashes of forged headers / blocks (must never be known to the syncing node)
-	stats  struct {
+	fatal                    c20Fatal
+	lastDrop                 string                  // why the honest peer was dropped last time
+	delivered, deliveredSync map[uint32]bool         // indices of the blocks handed to the current syncing server instance (for bQueue / bSyncQueue)
+	forged                   map[util.Uint256]string // hashes of forged headers / blocks (must never be known to the syncing node)
+	stats                    struct {
 		drops, dups, discs, restarts, liarMsgs, liarRejected, handlerErrs, reorder, invs int
-		stages                                                                          map[string]bool
+		stages                                                                           map[string]bool
 	}
 }
 
@@ -395,7 +405,7 @@ func (w *c20World) logger() *zap.Logger {
 
 func (w *c20World) newServer(bc *core.Blockchain) (*Server, error) {
 	return newServerFromConstructors(ServerConfig{
-		Addresses: []config.AnnounceableAddress{{Address: ":0"}},
+		Addresses:         []config.AnnounceableAddress{{Address: ":0"}},
 		MinPeers:          1,
 		MaxPeers:          10,
 		AttemptConnPeers:  1,
